@@ -1009,6 +1009,38 @@ fn final_verify_if_last(sh: &Arc<Shared>) {
         }
     }
     st.classes.insert("final-verification-done");
+    // quiescent point: every other arena value is gone, so no operation is in flight. The free list as reachable
+    // from the sentinel must not hold a marked segment (the next traversal would wait for a marker that does not
+    // exist - C07), and no free segment may intersect a range that is still handed out or another free segment
+    // (the next allocation served from it would overlap - C02; well-formedness at a quiescent point - C10)
+    if bad.is_none() {
+        let me = st.arena_ptrs.iter().enumerate().find(|(i, _)| !st.finished[*i]).map(|(_, p)| *p);
+        if let Some(p) = me {
+            let snap = unsafe { &*(p as *const Arena) }.verif_freelist(256);
+            let nodes = snap.nodes;
+            let known = st.aba_mark.clone();
+            if let Some(n) = nodes.iter().find(|n| n.1 == 0) {
+                let sig = if known.is_some() { "stall/aba-cas-on-unlinked-node" } else { "quiescent/marked-segment-left" };
+                let aba = known.clone().map(|a| format!("; earlier: {a}")).unwrap_or_default();
+                bad = Some(viol!("C07", sig, "all operations have returned but the segment at offset {} is still linked and marked (size 0): the next alloc / dealloc / discard_freelist that meets it never returns; reachable list {:?}{aba}", n.0, nodes));
+            } else if known.is_none() {
+                let ext: Vec<(usize, usize)> = nodes.iter().map(|n| (n.0 as usize, n.0 as usize + 8 + n.1 as usize)).collect();
+                'outer: for (k, e) in ext.iter().enumerate() {
+                    if let Some(l) = st.live.iter().find(|l| l.cap > 0 && e.0 < l.off + l.cap && l.off < e.1) {
+                        bad = Some(viol!("C02|C10", "free-segment-overlaps-live", "at the end of the run the free segment [{}, {}) intersects range #{} [{}, {}) that is still handed out; reachable list {:?}", e.0, e.1, l.id, l.off, l.off + l.cap, nodes));
+                        break;
+                    }
+                    for f in &ext[k + 1..] {
+                        if e.0 < f.1 && f.0 < e.1 {
+                            bad = Some(viol!("C02|C10", "free-segments-overlap", "at the end of the run the free segments [{}, {}) and [{}, {}) intersect; reachable list {:?}", e.0, e.1, f.0, f.1, nodes));
+                            break 'outer;
+                        }
+                    }
+                }
+            }
+            st.classes.insert("quiescent-freelist-checked");
+        }
+    }
     if let Some(v) = bad {
         st.fail(v);
         sh.cv.notify_all();
